@@ -12,7 +12,8 @@ RULE = ('random integer data as list, 1-d array, 2-d array (C- and F-ordered, tr
         'rename_by_index / rename_by_population (with population ties) / unique on the same data. Non-trivial = map changes >=1 element and '
         'contains a swap, cycle or non-injective target (shift) / >=2 states (rename); distinct by (data, map, function).')
 RELATION = 'shift_data / rename_by_* / unique on real containers = Relabel.shiftData / renameBy* / uniqueCounts on (flattened values, shape)'
-STRUCTS = ['list', 'array1d', 'array2d', 'array2d_F', 'array2d_T', 'list_of_arrays', 'list_of_lists', 'tuple_of_arrays']
+STRUCTS = ['list', 'array1d', 'array1d_narrow', 'array2d', 'array2d_F', 'array2d_T', 'list_of_arrays', 'list_of_arrays_narrow', 'list_of_lists',
+           'tuple_of_arrays']
 
 
 def _mk(fn, vals, struct, shape, old=None, new=None, src='rand', kindmap=''):
@@ -20,7 +21,7 @@ def _mk(fn, vals, struct, shape, old=None, new=None, src='rand', kindmap=''):
 
 
 def _shape(rng, n, struct):
-    if struct in ('list', 'array1d'):
+    if struct in ('list', 'array1d', 'array1d_narrow'):
         return {'kind': 'flat'}
     if struct.startswith('array2d'):
         divs = [d for d in range(1, n + 1) if n % d == 0]
@@ -35,6 +36,9 @@ def _shape(rng, n, struct):
 def cases(tier, rng, boost=1):
     yield _mk('shift', [1, 2, 3, 1, 2, 3], 'array2d_T', {'kind': 'mat', 'rows': 2, 'cols': 3}, [1, 2], [2, 1], src='corpus', kindmap='swap')
     yield _mk('rename_pop', [1, 1, 2, 2, 3], 'list', {'kind': 'flat'}, src='corpus')
+    yield _mk('rename_index', [-128, -1, 0, 127, -1], 'array1d_narrow', {'kind': 'flat'}, src='corpus')
+    yield _mk('shift', [-100, 100, -100, -1], 'array1d_narrow', {'kind': 'flat'}, [-100, 100], [100, -100], src='corpus', kindmap='swap')
+    yield _mk('shift', [5, 7, 3000000, 7, 5], 'array1d', {'kind': 'flat'}, [5, 7], [7, 5], src='corpus', kindmap='swap')
     nrand = {'quick': 3000, 'thorough': 40000, 'search': 10000}[tier] * boost
     for _ in range(nrand):
         nlab = rng.randint(1, 8)
@@ -45,6 +49,9 @@ def cases(tier, rng, boost=1):
         if rng.random() < 0.3:      # population ties
             vals = (vals * 2)[:n] if n > 1 else vals
         struct = rng.choice(STRUCTS)
+        if struct.endswith('_narrow') and rng.random() < 0.5 and n >= 2:
+            lo, hi = rng.choice([(-128, 127), (-32768, 32767)])
+            vals = [rng.choice([lo, hi, rng.randint(lo, hi)]) for _ in range(n)]
         shape = _shape(rng, n, struct)
         fn = rng.choice(['shift', 'shift', 'shift', 'rename_index', 'rename_pop', 'unique'])
         if fn != 'shift':
@@ -84,6 +91,8 @@ def build(vals, struct, shape):
         return list(vals)
     if struct == 'array1d':
         return np.array(vals, dtype=np.int64)
+    if struct == 'array1d_narrow':
+        return np.array(vals, dtype=gen.min_dtype([vals]))
     if struct.startswith('array2d'):
         a = np.array(vals, dtype=np.int64).reshape(shape['rows'], shape['cols'])
         if struct == 'array2d_F':
@@ -97,7 +106,7 @@ def build(vals, struct, shape):
         pos += L
     if struct == 'list_of_lists':
         return [list(p) for p in pieces]
-    arrs = [np.array(p, dtype=np.int64) for p in pieces]
+    arrs = [np.array(p, dtype=gen.min_dtype([vals]) if struct.endswith('_narrow') else np.int64) for p in pieces]
     return tuple(arrs) if struct == 'tuple_of_arrays' else arrs
 
 
@@ -122,7 +131,6 @@ def canon_data(res, shape):
 def real(case):
     import msmhelper as mh
     data = build(case['vals'], case['struct'], case['shape'])
-    snapshot = canon_data(data if not isinstance(data, list) or case['struct'] != 'list' else np.array(data), case['shape'])
 
     def run():
         if case['op'] == 'shift':
